@@ -65,16 +65,16 @@ var PayloadID = func(m interface{}) string { return fmt.Sprintf("%T", m) }
 
 // Sock implements knxnet.Socket.
 type Sock struct {
-	Network  string // "udp" or "tcp"
-	Local    net.Addr
-	in       *mc.Chan[knxnet.Service]
-	q        *mc.Chan[knxnet.Service]
-	Log      []Sent
-	OnSend   func(s *Sent) // gateway reaction, runs in the sender's goroutine right after the frame "left"
-	FailSend func(p knxnet.ServicePackable) error
-	Closed   bool
-	CloseN   int
-	Usable   bool // Send succeeds
+	Network    string // "udp" or "tcp"
+	Local      net.Addr
+	in         *mc.Chan[knxnet.Service]
+	q          *mc.Chan[knxnet.Service]
+	Log        []Sent
+	OnSend     func(s *Sent) // gateway reaction, runs in the sender's goroutine right after the frame "left"
+	FailSend   func(p knxnet.ServicePackable) error
+	Closed     bool
+	CloseN     int
+	Usable     bool // Send succeeds
 	LogHandoff bool // log a Handed event when the client took a frame from Inbound
 	// hand-off bookkeeping
 	Delivered int // frames taken from the queue by the receiver
